@@ -1,9 +1,19 @@
 (* C03 — Script index equals the chain: no phantom or spent cells, no missing activity.
    Model: Model/Store.v — the RocksDB key spaces as association lists, write batches applied in order.
-   What is proved here is per operation; the end-to-end statement "after any history the index equals
-   the ground-truth UTXO set" is checked by the correspondence op c03 against an independent
-   ground-truth index, not proved (level: partial).
+   Specification: Model/IndexSpec.v — the abstract cell index, a map updated transaction by transaction.
 
+   End to end (every chain, every script set, every block size):
+   - [C03_index_refines_abstract_index]: indexing a chain block by block with filter_block from a fresh store
+     yields, key by key, the abstract cell index of that chain.
+   - [C03_index_is_exactly_the_live_cells]: ... which contains an entry exactly for every output of the chain that
+     pays a registered script and that no input of the chain spends - nothing else (no phantom, no spent cell),
+     nothing missing.  Hypotheses = what a valid chain guarantees: distinct block numbers, distinct transaction
+     hashes, inputs refer to earlier transactions only.
+   The end-to-end theorems cover a script set fixed from genesis and blocks indexed in chain order; set_scripts,
+   fork rollback and fetched transactions are covered per operation (below, C04, C09) and by the correspondence
+   ops c03 / c06 against an independent ground-truth index over whole client histories.
+
+   Per operation:
    - [C03_no_phantom]: a cell in the index after filter_block was there before or is an output of this
      block carrying a registered script, under the right key (script, block, tx index, output index)
      and the right transaction.
@@ -14,7 +24,7 @@
    - [C03_fetch_does_not_disturb_index]: add_fetched_tx leaves cells, history, scripts and progress
      alone and never moves a transaction the index stores (the defect repaired by dd74d43). *)
 From Coq Require Import NArith List.
-From LC Require Import Store StoreProofs.
+From LC Require Import Store StoreProofs IndexSpec IndexRefinement IndexSpecMeaning.
 Import ListNotations.
 Open Scope N_scope.
 
@@ -59,3 +69,45 @@ Theorem C03_fetch_does_not_disturb_index :
     (forall v, a_get N.eqb (t_id t) (txs st) = Some v -> txs (add_fetched_tx st t bn) = txs st).
 Proof. exact add_fetched_tx_frame. Qed.
 Print Assumptions C03_fetch_does_not_disturb_index.
+
+(* ---- end to end ---- *)
+
+Theorem C03_index_refines_abstract_index :
+  forall regs bs,
+    well_formed_chain bs ->
+    forall k, a_get ckey_eqb k (cells (fold_left filter_block bs (fresh_store regs))) = spec_chain (reg_of regs) bs k.
+Proof. exact index_refines_spec. Qed.
+Print Assumptions C03_index_refines_abstract_index.
+
+Theorem C03_index_is_exactly_the_live_cells :
+  forall regs bs k tid,
+    well_formed_chain bs -> refs_backwards (chain_txs bs) ->
+    (a_get ckey_eqb k (cells (fold_left filter_block bs (fresh_store regs))) = Some tid
+     <-> live (reg_of regs) (chain_txs bs) k tid).
+Proof.
+  intros regs bs k tid Hwf Href. rewrite index_refines_spec by exact Hwf.
+  apply spec_chain_is_live_cells; [apply well_formed_pos_ok; exact Hwf | exact Href].
+Qed.
+Print Assumptions C03_index_is_exactly_the_live_cells.
+
+(* non-vacuity: two blocks; the second spends the first output of the first block's transaction and pays the watched
+   lock script 5 again; the hypotheses hold and the index holds exactly the two unspent cells *)
+Definition ex_chain : list block :=
+  [ mkBlock 1 [ mkTx 100 [] [mkOut 5 None; mkOut 5 (Some 6)] ];
+    mkBlock 2 [ mkTx 200 [(100, 0)] [mkOut 7 None; mkOut 5 None] ] ].
+
+Example C03_example_hypotheses : well_formed_chain ex_chain /\ refs_backwards (chain_txs ex_chain).
+Proof.
+  split.
+  - split; cbn; repeat constructor; cbn; intuition discriminate.
+  - intros l1 p l2 H inp Hin q Hq. cbn in H.
+    destruct l1 as [|a [|a' l1]]; cbn in H; inversion H; subst; cbn in Hin.
+    + destruct Hin.
+    + destruct Hin as [<-|[]]. destruct Hq as [<-|[]]. cbn. discriminate.
+    + exfalso. match goal with H0 : [] = ?l ++ _ |- _ => destruct l; discriminate H0 end.
+Qed.
+
+Example C03_example_index :
+  let st := fold_left filter_block ex_chain (fresh_store [mkSS 5 0 0]) in
+  map fst (cells st) = [(0, 5, 2, 0, 1); (0, 5, 1, 0, 1)].
+Proof. vm_compute. reflexivity. Qed.
